@@ -1764,29 +1764,6 @@ struct const_subarray : array_types<T, D, ElementPtr, Layout> {
 		return subarray<T2, D, P2>{this->layout().scale(sizeof(T), sizeof(T2)), static_cast<P2>(&(this->base_->*member))};
 	}
 
-	template<
-		class T2, class P2 = typename std::pointer_traits<typename const_subarray::element_ptr>::template rebind<T2>,
-		class Element = typename const_subarray::element,
-		class PM = T2 Element::*
-	>
-	constexpr auto member_cast(PM member) & -> subarray<T2, D, P2> {
-		static_assert(sizeof(T)%sizeof(T2) == 0,
-			"array_member_cast is limited to integral stride values, therefore the element target size must be multiple of the source element size. "
-			"Use custom alignas structures (to the interesting member(s) sizes) or custom pointers to allow reintrepreation of array elements"
-		);
-
-		return subarray<T2, D, P2>{this->layout().scale(sizeof(T), sizeof(T2)), static_cast<P2>(&(this->base_->*member))};
-	}
-
-	template<
-		class T2, class P2 = typename std::pointer_traits<typename const_subarray::element_ptr>::template rebind<T2>,
-		class Element = typename const_subarray::element,
-		class PM = T2 Element::*
-	>
-	constexpr auto member_cast(PM member) && -> subarray<T2, D, P2> {
-		return this->member_cast<T2, P2, Element, PM>(member);
-	}
-
 	template<class T2, class P2 = typename std::pointer_traits<typename const_subarray::element_ptr>::template rebind<T2>>
 	using rebind = subarray<std::decay_t<T2>, D, P2>;
 
@@ -1977,6 +1954,38 @@ class subarray : public const_subarray<T, D, ElementPtr, Layout> {
 	constexpr auto home()      & { return this->home_aux_(); }
 
 	constexpr auto elements() const& { return const_subarray<T, D, ElementPtr, Layout>::elements(); }
+
+	template<
+		class T2, class P2 = typename std::pointer_traits<ElementPtr>::template rebind<T2 const>,
+		class Element = typename subarray::element,
+		class PM = T2 std::decay_t<Element>::*
+	>
+	constexpr auto member_cast(PM member) const& -> decltype(auto) {
+		return const_subarray<T, D, ElementPtr, Layout>::template member_cast<T2, P2, Element, PM>(member);
+	}
+
+	template<
+		class T2, class P2 = typename std::pointer_traits<ElementPtr>::template rebind<T2>,
+		class Element = typename subarray::element,
+		class PM = T2 std::decay_t<Element>::*
+	>
+	constexpr auto member_cast(PM member) & -> subarray<T2, D, P2> {
+		static_assert(sizeof(T)%sizeof(T2) == 0,
+			"array_member_cast is limited to integral stride values, therefore the element target size must be multiple of the source element size. "
+			"Use custom alignas structures (to the interesting member(s) sizes) or custom pointers to allow reintrepreation of array elements"
+		);
+
+		return subarray<T2, D, P2>{this->layout().scale(sizeof(T), sizeof(T2)), static_cast<P2>(&(this->base_->*member))};
+	}
+
+	template<
+		class T2, class P2 = typename std::pointer_traits<ElementPtr>::template rebind<T2>,
+		class Element = typename subarray::element,
+		class PM = T2 std::decay_t<Element>::*
+	>
+	constexpr auto member_cast(PM member) && -> subarray<T2, D, P2> {
+		return this->template member_cast<T2, P2, Element, PM>(member);
+	}
 	constexpr auto elements()      & { return this->elements_aux_(); }
 	constexpr auto elements()     && { return this->elements_aux_(); }
 
@@ -3241,11 +3250,11 @@ struct const_subarray<T, 1, ElementPtr, Layout>  // NOLINT(fuchsia-multiple-inhe
 	constexpr auto element_transformed(UF&& fun) && {return element_transformed(std::forward<UF>(fun));}
 
 	template<
-		class T2, class P2 = typename std::pointer_traits<element_ptr>::template rebind<T2>,
+		class T2, class P2 = typename std::pointer_traits<element_ptr>::template rebind<T2 const>,
 		class Element = typename const_subarray::element,
 		class PM = T2 std::decay_t<Element>::*
 	>
-	constexpr auto member_cast(PM member) const {
+	constexpr auto member_cast(PM member) const& {
 		static_assert(sizeof(T)%sizeof(T2) == 0,
 			"array_member_cast is limited to integral stride values, therefore the element target size must be multiple of the source element size. "
 			"Use custom alignas structures (to the interesting member(s) sizes) or custom pointers to allow reintrepreation of array elements"
@@ -3255,7 +3264,7 @@ struct const_subarray<T, 1, ElementPtr, Layout>  // NOLINT(fuchsia-multiple-inhe
 		// NOLINTNEXTLINE(cppcoreguidelines-pro-type-reinterpret-cast) reinterpret is what the function does. alternative for GCC/NVCC
 		auto&& r1 = (*(reinterpret_cast<typename const_subarray::element_type* const&>(const_subarray::base_))).*member;  // ->*pm;
 		// NOLINTNEXTLINE(cppcoreguidelines-pro-type-reinterpret-cast) TODO(correaa) find a better way
-		auto* p1 = &r1; P2 p2 = reinterpret_cast<P2&>(p1);  //NOSONAR
+		T2 const* p1 = &r1; P2 p2 = reinterpret_cast<P2&>(p1);  //NOSONAR
 #else
 		auto p2 = static_cast<P2>(&(this->base_->*member));  // this crashes nvcc 11.2-11.4 and some? gcc compiler
 #endif
